@@ -177,7 +177,7 @@ def fingerprint(ctx, table, seed, digests=True):
     fp.append(("to_dict", _canon(call(ctx.to_dict)[1])))
     fp.append(("to_string", call(ctx.to_string)))
     fp.append(("schemes", call(ctx.schemes)))
-    fp.append(("context_kwds", tuple(sorted(ctx.context_kwds))))
+    fp.append(("context_kwds", call(lambda: tuple(sorted(ctx.context_kwds)))))
     for cat in CATS:
         fp.append(("default_scheme", cat, call(ctx.default_scheme, category=cat)))
         for end in ("lo", "hi"):
@@ -758,17 +758,26 @@ def eval_history(case, memo=None, tmpdir=None):
 
     st, d = P.call(ctx.to_dict)
     if st == "ok":
-        fkey = (repr(cfg), "fresh", repr(sorted(d.items(), key=repr)))
-        t2 = probe_table(d, seed) if d.get("schemes") else []
-        if memo is not None and fkey in memo:
-            fwant = memo[fkey]
-        else:
-            fwant = fingerprint(CryptContext(**d), t2, seed)
-            if memo is not None:
-                memo[fkey] = fwant
-        diff = first_diff(fwant, fingerprint(ctx, t2, seed))
-        if diff:
-            out.append((f"C10|history|differs_from_fresh_context:{diff[0]}", f"history {[events[j][0] for j in seq]} on {cfg!r}: the context answers differently from CryptContext(**its to_dict()): {diff[1]}"))
+        try:
+            fkey = (repr(cfg), "fresh", repr(sorted(d.items(), key=repr)))
+            t2 = probe_table(d, seed) if d.get("schemes") else []
+            if memo is not None and fkey in memo:
+                fwant = memo[fkey]
+            else:
+                fwant = fingerprint(CryptContext(**d), t2, seed)
+                if memo is not None:
+                    memo[fkey] = fwant
+        except core.HarnessError:
+            raise
+        except Exception as e:  # noqa: BLE001 - the export of a reached state must be loadable
+            out.append((f"C10|history|export_not_loadable:{type(e).__name__}", f"history {[events[j][0] for j in seq]} on {cfg!r}: to_dict() = {d!r} cannot be loaded again ({e!r})"))
+            fwant = None
+        if fwant is not None:
+            diff = first_diff(fwant, fingerprint(ctx, t2, seed))
+            if diff:
+                out.append((f"C10|history|differs_from_fresh_context:{diff[0]}", f"history {[events[j][0] for j in seq]} on {cfg!r}: the context answers differently from CryptContext(**its to_dict()): {diff[1]}"))
+    else:
+        out.append((f"C10|history|to_dict_raises:{d}", f"history {[events[j][0] for j in seq]} on {cfg!r}: to_dict() raised {d}"))
     if own_tmp:
         shutil.rmtree(own_tmp, ignore_errors=True)
     return out
